@@ -32,7 +32,16 @@ def _val(schema, v, M):
         except Exception as e:
             return ('badref', type(v).__name__, repr(e)[:80])
     if isinstance(v, s_expr.Expression):
-        return ('expr', v.text)
+        # the text and what its names resolved to (two schemas may store the
+        # same unqualified text bound to different objects)
+        refs = ()
+        try:
+            if v.refs is not None:
+                refs = tuple(sorted(
+                    str(r.get_name(schema)) for r in v.refs.objects(schema)))
+        except Exception as e:
+            refs = ('badrefs', repr(e)[:60])
+        return ('expr', v.text, refs)
     if isinstance(v, s_expr.ExpressionList):
         return ('exprs', tuple(_val(schema, x, M) for x in v))
     if isinstance(v, s_expr.ExpressionDict):
